@@ -59,6 +59,16 @@ def axref(a):
     return a
 
 
+def arr_exact(vals, dt):
+    """impl1.arr, except that integer contents which are not doubles (beyond 2**53) go in as exact python integers
+    (impl1.arr converts through float64 and refuses them); every list of doubles takes the old route"""
+    if dt.kind in "iu":
+        fr = [Fraction(v) for v in vals]
+        if all(f.denominator == 1 for f in fr) and any(Fraction(float(f)) != f for f in fr):
+            return np.array([int(f) for f in fr], dtype=dt)
+    return arr(vals, dt)
+
+
 def sub_index(j, ik=None):
     if isinstance(j, dict):
         return slice(j["s"][0], j["s"][1])
@@ -113,13 +123,15 @@ def step(s: Store, op: dict, log: list):
             axes = [mk_binning(b) for b in op["axes"]]
             shape = tuple(len(b["bins"]) if b["t"] == "static" else b["count"] for b in op["axes"])
             dt = np.dtype(op["dtype"])
-            f = arr(op["freq"], dt).reshape(shape)
-            e = None if op.get("err2") is None else arr(op["err2"], dt).reshape(shape)
+            f = arr_exact(op["freq"], dt).reshape(shape)
+            e = None if op.get("err2") is None else arr_exact(op["err2"], dt).reshape(shape)
+            # "missed_kind": the missed weight as a number of that kind (a python int keeps integers beyond 2**53 exact)
+            missed = num_of(op["missed"], op["missed_kind"]) if op.get("missed_kind") else fl(op.get("missed", "0"))
             klass = Histogram2D if len(axes) == 2 else HistogramND
             kw = {}
             if op.get("names") is not None:
                 kw["axis_names"] = op["names"]
-            r = klass(axes, f, errors2=e, missed=fl(op.get("missed", "0")), keep_missed=op.get("keep", True), **kw)
+            r = klass(axes, f, errors2=e, missed=missed, keep_missed=op.get("keep", True), **kw)
             s.set(op["out"], r)
             return "ok"
         if name == "fill":
